@@ -3,12 +3,12 @@
 package main
 
 import (
-	"runtime/pprof"
 	"bytes"
 	"encoding/json"
 	"flag"
 	"fmt"
 	"os"
+	"runtime/pprof"
 	"strconv"
 	"strings"
 
